@@ -520,3 +520,7 @@ def check(run):
     run.rule(r16e, run)
     run.rule(r16f, run)
     run.rule(r16g, run)
+    # round 8: the effect of one registration on the registry, as a table (helper_table.py)
+    from . import helper_table as _ht
+    run.rules_run.append("R16h")
+    run.rule(_ht.r_register, run, C)
